@@ -256,8 +256,9 @@ type RegDump struct {
 }
 
 // DumpReg reads the registry from committed state.
-func DumpReg(c *chain.Chain) RegDump {
-	ctx := c.Ctx()
+func DumpReg(c *chain.Chain) RegDump { return dumpRegCtx(c, c.Ctx()) }
+
+func dumpRegCtx(c *chain.Chain, ctx sdk.Context) RegDump {
 	d := RegDump{Index: map[string]common.Address{}, Allow: map[string]string{}}
 	st := ctx.KVStore(c.App.GetKey(cpctypes.StoreKey))
 	it := storetypes.KVStorePrefixIterator(st, nil)
